@@ -1332,34 +1332,65 @@ func (a *absint) fieldRange(f *types.Var) *ival {
 	if len(stores) == 0 {
 		return nil
 	}
+	var thresholds []int64
+	seenFn := map[*ssa.Function]bool{}
+	for _, st := range stores {
+		if seenFn[st.Parent()] {
+			continue
+		}
+		seenFn[st.Parent()] = true
+		w.eachInstr(st.Parent(), func(in ssa.Instruction) {
+			if bo, ok := in.(*ssa.BinOp); ok {
+				for _, o := range []ssa.Value{bo.X, bo.Y} {
+					if k, isC := constInt(o); isC {
+						thresholds = append(thresholds, k)
+					}
+				}
+			}
+		})
+	}
 	// induction: start from the join of stores that do not read the field, iterate
 	cur := ival{1, 0}
 	if unsetAlloc {
 		cur = ival{0, 0}
 	}
 	tr := typeRange(f.Type())
-	for iter := 0; iter < 6; iter++ {
+	for iter := 0; iter < 10; iter++ {
 		a.fieldInv[f] = cur
 		if cur.empty() {
 			a.fieldInv[f] = ival{1, 0}
 		}
-		saveMemo := a.memo
+		saveMemo, saveSolve := a.memo, a.inSolve
 		a.memo = map[ssa.Value]ival{}
+		a.inSolve = true
 		next := cur
 		for _, st := range stores {
 			next = next.join(a.rangeAt(st.Val, st, 3))
 		}
-		a.memo = saveMemo
+		a.memo, a.inSolve = saveMemo, saveSolve
 		next = next.meet(tr)
 		if next == cur {
 			break
 		}
-		if iter >= 3 {
+		if iter >= 2 && !cur.empty() {
+			// widening with thresholds: the constants the writers compare against
 			if next.lo < cur.lo {
-				next.lo = tr.lo
+				nl := tr.lo
+				for _, t := range thresholds {
+					if t <= next.lo && t > nl {
+						nl = t
+					}
+				}
+				next.lo = nl
 			}
 			if next.hi > cur.hi {
-				next.hi = tr.hi
+				nh := tr.hi
+				for _, t := range thresholds {
+					if t >= next.hi && t < nh {
+						nh = t
+					}
+				}
+				next.hi = nh
 			}
 		}
 		cur = next
